@@ -27,7 +27,7 @@ SASS_AT = {"mixin", "include", "function", "return", "if", "else", "each", "for"
 
 
 def plan(tier):
-    return {"budget_s": 60 if tier == "quick" else 480, "profiles": ["R"], "min_evaluations": 1000}
+    return {"budget_s": 60 if tier == "quick" else 480, "profiles": ["R"], "min_evaluations": 1000, "params": {"worker_timeout": 5}}
 
 
 def exclusions():
@@ -102,7 +102,7 @@ MEDIA = ["screen", "print and (min-width: 100px)", "(min-width: 1px) and (max-wi
          "screen, print", "(min-resolution: 2dppx)", "(width >= 600px)", "#{'screen'}"]
 
 
-def gen_clean_program(rng, depth=0, in_media=False):
+def gen_clean_program(rng, depth=0, in_media=False, in_ph=False):
     """well-behaved Sass made of CSS-representable values, exercising every serializer path"""
     out = []
     for _ in range(rng.range(1, 4)):
@@ -114,6 +114,9 @@ def gen_clean_program(rng, depth=0, in_media=False):
             if sel.startswith("@at-root") and depth == 0:
                 sel = ".r"
             body = []
+            # (a rule that extends a placeholder it is itself nested in / named by makes the extension algorithm run
+            # away — C10's known finding KF-C10-self-extend-blowup; such programs only cost watchdog time here)
+            ph_here = in_ph or "%ph" in sel
             for _ in range(rng.range(0, 4)):
                 j = rng.below(12)
                 if j < 7:
@@ -123,17 +126,17 @@ def gen_clean_program(rng, depth=0, in_media=False):
                 elif j == 8:
                     body.append("/* c%d */" % rng.below(9))
                 elif j == 9 and depth < 3:
-                    body.append(gen_clean_program(rng, depth + 1, in_media))
-                elif j == 10:
+                    body.append(gen_clean_program(rng, depth + 1, in_media, ph_here))
+                elif j == 10 and not ph_here:
                     body.append("@extend %ph !optional;")
                 else:
                     body.append("--custom: { a: b } %s;" % rng.choice(["x", "1px", '"s"']))
             out.append("%s { %s }" % (sel, " ".join(body)))
         elif k == 7 and not in_media:
             # (nested @media merging is C17's subject: re-merging on every pass is legitimate, so no @media in @media here)
-            out.append("@media %s { %s }" % (rng.choice(MEDIA), gen_clean_program(rng, depth + 1, True)))
+            out.append("@media %s { %s }" % (rng.choice(MEDIA), gen_clean_program(rng, depth + 1, True, in_ph)))
         elif k == 8:
-            out.append("@supports (%s: %s) { %s }" % (rng.choice(["display", "a"]), rng.choice(["grid", "1px", "b"]), gen_clean_program(rng, depth + 1, in_media)))
+            out.append("@supports (%s: %s) { %s }" % (rng.choice(["display", "a"]), rng.choice(["grid", "1px", "b"]), gen_clean_program(rng, depth + 1, in_media, in_ph)))
         elif k == 9 and depth == 0:
             out.append("@keyframes k%d { from { a: %s; } 50%% { a: %s; } to { a: b; } }" % (rng.below(9), rng.choice(VALS), rng.choice(VALS)))
         elif k == 10 and depth == 0:
